@@ -65,10 +65,11 @@ def c055(ctx):
     uses = []
     for b, t in f.calls():
         ck = callee_skey(t) or ""
-        if re.search(r"Determiner::retain$|alloc::vec::Vec.*::push$|GarbageCollector::return_key$", ck):
+        # every call that is handed the accumulator (retain, push, return_key, `last()` ..) except the resets themselves
+        if not re.search(r"alloc::vec::Vec.*::(clear|new|with_capacity)$", ck):
             if any(a in K.base_locals(f, x) or (x.get("k") in ("move", "copy") and x["pl"]["l"] == a) for x in t["args"]):
                 uses.append(P.term_pt(f, b.idx))
-    ctx.floor(R, "uses of the tombstone list", len(uses), 3)
+    ctx.floor(R, "uses of the tombstone list", len(uses), 2)
     # key switches: writes into self.key_backing
     sw = [p_ for p_ in P.call_points(f, r"::(copy_from_slice|resize|clear|extend_from_slice|clone_from)$") if "key_backing" in K.arg_field_names(f, p_, 0)]
     ctx.floor(R, "key switch sites (writes to key_backing)", len(sw), 1)
@@ -80,7 +81,9 @@ def c055(ctx):
     # a retained value with pending tombstones hands the list over (moved into return_key), and a rejected one restarts
     for p_ in ret:
         rk = set(P.call_points(f, r"GarbageCollector::return_key$"))
-        nxt = P.reach(f, P.after(f, p_), [u for u in uses if u not in rk], avoid=set(reinit) | rk)
+        # (what matters is that it is not *accumulated into or judged again*: reading it on the way out -- `tombstones.last()` -- is not reuse)
+        judged = [u for u in uses if u not in rk and re.search(r"Determiner::retain$|alloc::vec::Vec.*::(push|extend|append|extend_from_slice)$", callee_skey(P.term_at(f, u)) or "")]
+        nxt = P.reach(f, P.after(f, p_), judged, avoid=set(reinit) | rk)
         ctx.check(R, f, "reset-after-verdict", nxt is None, "after retain() answered, the list is either handed to return_key or re-created",
                   "the tombstone list is reused after the determiner's verdict without being reset", pt=p_, path=nxt)
 
